@@ -85,7 +85,14 @@ func (vc *VC) heapWF(name, sym, alloc string) string {
 		// the nil map has an empty domain
 		ks := vc.heapSort[name]
 		k := mapKeySortFromHeapSort(ks)
-		return "(forall ((k!h " + k + ")) (not (select (select " + sym + " 0) k!h)))"
+		f := "(forall ((k!h " + k + ")) (not (select (select " + sym + " 0) k!h)))"
+		if et != nil {
+			// every key in a map's domain is a well-formed value of the key type
+			if w := vc.u.WF("k!h", et, alloc); w != "true" {
+				f = "(and " + f + " (forall ((r!h Int) (k!h " + k + ")) (! (=> (select (select " + sym + " r!h) k!h) " + w + ") :pattern ((select (select " + sym + " r!h) k!h)))))"
+			}
+		}
+		return f
 	case name == "Chh":
 		return "(forall ((r!h Int)) (! (>= (select " + sym + " r!h) 0) :pattern ((select " + sym + " r!h))))"
 	case strings.HasPrefix(name, "Chb$"):
@@ -228,7 +235,7 @@ func (vc *VC) mapInfo(t types.Type) mapHeaps {
 }
 
 func (vc *VC) mapDom(st *State, mi mapHeaps, ref string) string {
-	h := vc.heapGet(st, mi.dn, mi.dsort, nil)
+	h := vc.heapGet(st, mi.dn, mi.dsort, mi.K)
 	return sel(h.S, ref)
 }
 func (vc *VC) mapVal(st *State, mi mapHeaps, ref string) string {
@@ -251,7 +258,7 @@ func (vc *VC) mapLookup(st *State, mi mapHeaps, ref, key string) Term {
 
 func (vc *VC) mapStore(st *State, mi mapHeaps, ref, key string, v Term) {
 	had := vc.mapHas(st, mi, ref, key)
-	dh := vc.heapGet(st, mi.dn, mi.dsort, nil)
+	dh := vc.heapGet(st, mi.dn, mi.dsort, mi.K)
 	vh := vc.heapGet(st, mi.vn, mi.vsort, mi.V)
 	ch := vc.heapGet(st, mi.cn, "(Array Int Int)", nil)
 	newCard := fmt.Sprintf("(+ %s (ite %s 0 1))", sel(ch.S, ref), had)
@@ -262,7 +269,7 @@ func (vc *VC) mapStore(st *State, mi mapHeaps, ref, key string, v Term) {
 
 func (vc *VC) mapDelete(st *State, mi mapHeaps, ref, key string) {
 	had := vc.mapHas(st, mi, ref, key)
-	dh := vc.heapGet(st, mi.dn, mi.dsort, nil)
+	dh := vc.heapGet(st, mi.dn, mi.dsort, mi.K)
 	ch := vc.heapGet(st, mi.cn, "(Array Int Int)", nil)
 	newCard := fmt.Sprintf("(- %s (ite %s 1 0))", sel(ch.S, ref), had)
 	st.heap[mi.cn] = Term{S: store(ch.S, ref, newCard), Sort: "(Array Int Int)"}
@@ -273,7 +280,7 @@ func (vc *VC) mapDelete(st *State, mi mapHeaps, ref, key string) {
 func (vc *VC) mapNew(st *State, t types.Type) Term {
 	mi := vc.mapInfo(t)
 	r := vc.alloc(st, t)
-	dh := vc.heapGet(st, mi.dn, mi.dsort, nil)
+	dh := vc.heapGet(st, mi.dn, mi.dsort, mi.K)
 	ch := vc.heapGet(st, mi.cn, "(Array Int Int)", nil)
 	st.heap[mi.dn] = Term{S: store(dh.S, r.S, "((as const (Array "+mi.ks+" Bool)) false)"), Sort: mi.dsort}
 	st.heap[mi.cn] = Term{S: store(ch.S, r.S, "0"), Sort: "(Array Int Int)"}
